@@ -91,9 +91,14 @@ func New(id, level string) *Run {
 		r.nshards = 1
 	}
 	if d := os.Getenv("VERIF_DEADLINE_S"); d != "" {
-		if s, err := strconv.Atoi(d); err == nil {
+		if s, err := strconv.Atoi(d); err == nil && s > 0 {
 			r.deadline = r.start.Add(time.Duration(s) * time.Second)
 		}
+	} else if r.Tier == "thorough" {
+		// the thorough tier explores as deep as it gets within half an hour per check; when
+		// the budget ends the run stops exploring, reports what was covered below the cap
+		// (exhaustive:false) and exits 0 (VERIF_DEADLINE_S=<seconds> overrides, 0 = none)
+		r.deadline = r.start.Add(30 * time.Minute)
 	}
 	return r
 }
